@@ -133,3 +133,39 @@ def run_tlc(
         raise TlcFailure(f"TLC reports {res.violated} for {module.name}/{cfg.name}:\n{res.counterexample}")
     res.ok = not res.violated
     return res
+
+
+def write_cfg(path: Path, consts: dict, invariants: list[str] | None = None, spec: str = "Spec",
+              post: str | None = None, props: list[str] | None = None, constraint: str | None = None,
+              view: str | None = None) -> Path:
+    """Emit a TLC cfg with literal constants (sets of strings, ints, booleans, strings)."""
+    def lit(v):
+        if isinstance(v, bool):
+            return "TRUE" if v else "FALSE"
+        if isinstance(v, int):
+            return str(v)
+        if isinstance(v, str):
+            return '"' + v + '"'
+        if isinstance(v, (set, frozenset, list, tuple)):
+            items = sorted(v) if isinstance(v, (set, frozenset)) else list(v)
+            return "{" + ", ".join(lit(x) for x in items) + "}"
+        raise TypeError(v)
+
+    lines = [f"SPECIFICATION {spec}"]
+    if consts:
+        lines.append("CONSTANTS")
+        for k, v in consts.items():
+            lines.append(f"  {k} = {lit(v)}")
+    for i in invariants or []:
+        lines.append(f"INVARIANT {i}")
+    for p in props or []:
+        lines.append(f"PROPERTY {p}")
+    if constraint:
+        lines.append(f"CONSTRAINT {constraint}")
+    if view:
+        lines.append(f"VIEW {view}")
+    if post:
+        lines.append(f"POSTCONDITION {post}")
+    lines.append("CHECK_DEADLOCK FALSE")
+    path.write_text("\n".join(lines) + "\n")
+    return path
